@@ -1,6 +1,6 @@
 (* Memo_Facts.v — result caching is transparent when the memo satisfies its contract (property C05, abstract memo of
-   DESIGN.md 3.4): the concrete IndexedCache is modelled in IndexedCache.v, where the contract's retrieval half is
-   refuted (C20_retrieve_refuted) — that gap is known finding C05-wildcard-retrieval. *)
+   DESIGN.md 3.4): the concrete IndexedCache is modelled in IndexedCache.v and proved exact (C20_retrieve); the call-site shape on
+   top of it is IndexedMemo_Facts.v. *)
 From EQL Require Import Base.
 
 Section Memo.
